@@ -336,8 +336,9 @@ fn native_run(scratch: &Scratch, gens: &BTreeMap<String, BTreeMap<String, String
                 let (ranges, _) = sweep_ranges(t, false);
                 if t == WTy::Bool && builds[bi].name == "rust-debug-assertions" {
                     // `bool_lift` panics on most of these inputs under debug assertions; a panic
-                    // costs microseconds, so spread the windows over processes
-                    for r in &ranges {
+                    // costs microseconds, so only 4 of the 16 high-half patterns (0x0000, 0x0001,
+                    // 0x8000, 0xFFFF) are run, spread over processes
+                    for r in ranges.iter().filter(|r| matches!(r.0 >> 16, 0x0000 | 0x0001 | 0x8000 | 0xFFFF)) {
                         jobs.push(sweep_job(bi, site, t, &[*r], false));
                         meta.push(("sweep", bi, site, t));
                     }
@@ -706,7 +707,7 @@ fn main() {
             "u32_s32_f32_interpreted": format!("structured 32-bit set ({n32} words): all patterns with <=2 bits set or <=2 bits clear, byte walks on 0 / all-ones background, width and char boundaries with neighbours and complements; f32 adds signalling/quiet NaN payload walks"),
             "u64_s64_f64": format!("structured 64-bit set ({n64} words; f64 adds NaN payload walks) — a bound, not the whole domain"),
             "char": if thorough { "every scalar value (and every non-scalar code below 0x120000 as unjudged input), plus the structured 32-bit set" } else { "native: every code below 0x120000; interpreted: 0..0x3000, 0xD000..0xE100, 0x10FF00..0x110100 + structured 32-bit set" },
-            "bool": if thorough { "false/true lowered (must be exactly 0/1); lift judged as i != 0 over all 2^32 core i32 values (c, cpp, rust-release), 2^16 low halves x 16 high-half patterns + structured set (rust-debug-assertions: panics on most inputs), 2^16 x 74 high-half patterns + structured set (interpreted)" } else { "false/true lowered (must be exactly 0/1); lift judged as i != 0 over 2^16 low halves x 16 high-half patterns + the structured 32-bit set, every backend" },
+            "bool": if thorough { "false/true lowered (must be exactly 0/1); lift judged as i != 0 over all 2^32 core i32 values (c, cpp, rust-release), 2^16 low halves x 4 high-half patterns + structured set (rust-debug-assertions: panics on 254/256 of all inputs), 2^16 x 74 high-half patterns + structured set (interpreted)" } else { "false/true lowered (must be exactly 0/1); lift judged as i != 0 over 2^16 low halves x 16 high-half patterns + the structured 32-bit set, every backend (rust-debug-assertions, which panics on 254/256 of all inputs: 4 high-half patterns)" },
         },
         "full_domain": full32,
         "per_build": per_build,
